@@ -7,10 +7,30 @@ Open Scope N_scope.
 (* ====================================================================== *)
 (* Part A.  White space, comments, line splitting                          *)
 
-(* characters a blank line may consist of (no LF; CR is allowed: stray CRs, CRLF files) *)
+(* ASCII blanks (leading blanks of an entry line, separators) *)
 Definition blank_char (c : N) : bool := (c =? 9) || (c =? 11) || (c =? 12) || (c =? 32).
-Definition blank_ok (w : bytes) : bool := forallb (fun c => blank_char c || (c =? 13)) w.
 Definition no_lf (l : bytes) : bool := forallb (fun c => negb (c =? 10)) l.
+(* white space and nothing else: a sequence of white-space runes in the sense of unicode.IsSpace - TAB LF VT FF CR,
+   SPACE, U+0085, U+00A0, U+1680, U+2000..U+200A, U+2028, U+2029, U+202F, U+205F, U+3000 in UTF-8 *)
+Fixpoint all_space (l : bytes) : bool :=
+  match l with
+  | [] => true
+  | a :: r1 =>
+      if is_sp1 a then all_space r1 else
+      match r1 with
+      | b :: r2 =>
+          if is_sp2 a b then all_space r2 else
+          match r2 with
+          | c :: r3 => is_sp3 a b c && all_space r3
+          | [] => false
+          end
+      | [] => false
+      end
+  end.
+(* a blank line: no LF, and what stands before its first CR (the whole line when there is none) is white space *)
+Definition blank_ok (w : bytes) : bool := no_lf w && all_space (cut_at 13 w).
+(* the white space before the '#' of a comment line: white space without LF and CR *)
+Definition comment_ws_ok (w : bytes) : bool := all_space w && forallb (fun c => negb (c =? 10) && negb (c =? 13)) w.
 (* a visible ASCII character other than '#' *)
 Definition graphic (x : N) : bool := (33 <=? x) && (x <? 127).
 (* an entry line: after optional blanks it starts with a visible character that is not '#'; it has no LF and no CR *)
@@ -28,7 +48,7 @@ Definition item_ok (it : item) : bool :=
   match it with
   | IEntry l => entry_ok l
   | IBlank w => blank_ok w
-  | IComment w t => forallb blank_char w && no_lf t
+  | IComment w t => comment_ws_ok w && no_lf t
   end.
 Definition layout_ok (its : list item) : bool := forallb item_ok its.
 
@@ -48,23 +68,43 @@ Proof. intros l. unfold trim_space, rev'. now rewrite <- !rev_alt. Qed.
 Lemma trim_space_all_sp : forall l, forallb is_sp1 l = true -> trim_space l = [].
 Proof. intros l H. rewrite trim_space_rev. now rewrite trim_left_all_sp. Qed.
 
-Lemma cut_blank : forall w, blank_ok w = true -> forallb is_sp1 (cut_at 13 w) = true.
+(* white space in front of a text is all that TrimLeft removes before it looks at the text *)
+Lemma trim_left_skip_space_n : forall n w l, (length w <= n)%nat -> all_space w = true -> trim_left_sp (w ++ l) = trim_left_sp l.
 Proof.
-  induction w as [|c w IH]; cbn [blank_ok forallb cut_at]; [reflexivity|].
-  intros H. apply andb_prop in H as [Hc Hw].
-  destruct (c =? 13) eqn:E; [reflexivity|].
-  cbn [forallb]. rewrite IH by exact Hw. rewrite orb_false_r in Hc.
-  now rewrite (blank_char_sp1 _ Hc).
+  induction n as [|n IH]; intros w l Hn H.
+  - destruct w; [reflexivity|cbn in Hn; lia].
+  - destruct w as [|a r1]; [reflexivity|]. cbn [length] in Hn. cbn [all_space] in H. cbn [app trim_left_sp].
+    destruct (is_sp1 a); [apply IH; [lia|exact H]|].
+    destruct r1 as [|b r2]; [discriminate|]. cbn [length] in Hn. cbn [app].
+    destruct (is_sp2 a b); [apply IH; [lia|exact H]|].
+    destruct r2 as [|c r3]; [discriminate|]. cbn [length] in Hn. cbn [app]. apply andb_prop in H as [H3 H].
+    rewrite H3. apply IH; [lia|exact H].
+Qed.
+Lemma trim_left_skip_space : forall w l, all_space w = true -> trim_left_sp (w ++ l) = trim_left_sp l.
+Proof. intros w l. apply (trim_left_skip_space_n (length w)). apply le_n. Qed.
+
+Lemma trim_space_all_space : forall w, all_space w = true -> trim_space w = [].
+Proof.
+  intros w H. rewrite trim_space_rev. rewrite <- (app_nil_r w). now rewrite trim_left_skip_space.
 Qed.
 
-Lemma blank_ok_app_cr : forall w, blank_ok w = true -> blank_ok (w ++ [13]) = true.
+Lemma cut_at_app_same_cr : forall l x, cut_at 13 (l ++ 13 :: x) = cut_at 13 l.
 Proof.
-  intros w H. unfold blank_ok in *. rewrite forallb_app, H. reflexivity.
+  induction l as [|y l IH]; intros x; cbn [app cut_at]; [reflexivity|].
+  destruct (y =? 13); [reflexivity|]. now rewrite IH.
 Qed.
 
 Lemma skip_blank : forall w, blank_ok w = true -> ssh_skip w = true.
 Proof.
-  intros w H. unfold ssh_skip. now rewrite trim_space_all_sp by (now apply cut_blank).
+  intros w H. unfold blank_ok in H. apply andb_prop in H as [_ H]. unfold ssh_skip.
+  now rewrite trim_space_all_space.
+Qed.
+
+(* ... with or without the CR of a CRLF ending *)
+Lemma skip_blank_cr : forall w, blank_ok w = true -> ssh_skip (w ++ [13]) = true.
+Proof.
+  intros w H. unfold blank_ok in H. apply andb_prop in H as [_ H]. unfold ssh_skip.
+  rewrite cut_at_app_same_cr. now rewrite trim_space_all_space.
 Qed.
 
 (* a visible first byte survives trimming on both sides *)
@@ -109,12 +149,12 @@ Proof.
   rewrite Hs, rev_app_distr. cbn [rev app]. eauto.
 Qed.
 
-Lemma cut_at_app_stop : forall w x t, forallb blank_char w = true ->
+Lemma cut_at_app_stop : forall w x t, forallb (fun c => negb (c =? 10) && negb (c =? 13)) w = true ->
   cut_at 13 (w ++ x :: t) = w ++ cut_at 13 (x :: t).
 Proof.
   induction w as [|c w IH]; intros x t H; [reflexivity|].
   cbn [forallb] in H. apply andb_prop in H as [Hc Hw].
-  cbn [app cut_at]. assert (c =? 13 = false) as -> by (unfold blank_char in Hc; lia).
+  cbn [app cut_at]. assert (c =? 13 = false) as -> by lia.
   now rewrite IH.
 Qed.
 
@@ -125,11 +165,12 @@ Proof.
   cbn [app trim_left_sp]. rewrite (blank_char_sp1 _ Hc). now apply IH.
 Qed.
 
-Lemma skip_comment : forall w t, forallb blank_char w = true -> ssh_skip (w ++ 35 :: t) = true.
+Lemma skip_comment : forall w t, comment_ws_ok w = true -> ssh_skip (w ++ 35 :: t) = true.
 Proof.
-  intros w t Hw. unfold ssh_skip. rewrite cut_at_app_stop by exact Hw.
+  intros w t Hw. unfold comment_ws_ok in Hw. apply andb_prop in Hw as [Hsp Hw].
+  unfold ssh_skip. rewrite cut_at_app_stop by exact Hw.
   cbn [cut_at]. change (35 =? 13) with false. cbv iota.
-  rewrite trim_space_rev. rewrite trim_left_skip_ws by exact Hw.
+  rewrite trim_space_rev. rewrite trim_left_skip_space by exact Hsp.
   rewrite <- trim_space_rev.
   destruct (trim_space_head 35 (cut_at 13 t) eq_refl) as [t' ->]. reflexivity.
 Qed.
@@ -203,11 +244,10 @@ Proof.
   intros [l|w|w t]; cbn [item_ok item_line]; intros H.
   - unfold entry_ok in H. apply andb_prop in H as [_ H]. unfold no_lf.
     rewrite forallb_forall in *. intros c Hc. specialize (H c Hc). lia.
-  - unfold blank_ok in H. unfold no_lf. rewrite forallb_forall in *. intros c Hc. specialize (H c Hc).
-    unfold blank_char in H. lia.
-  - apply andb_prop in H as [Hw Ht]. unfold no_lf in *. rewrite forallb_app. cbn [forallb].
-    rewrite Ht, andb_true_r. rewrite forallb_forall in *. intros c Hc. specialize (Hw c Hc).
-    unfold blank_char in Hw. lia.
+  - unfold blank_ok in H. now apply andb_prop in H as [H _].
+  - apply andb_prop in H as [Hw Ht]. unfold comment_ws_ok in Hw. apply andb_prop in Hw as [_ Hw].
+    unfold no_lf in *. rewrite forallb_app. cbn [forallb].
+    rewrite Ht, andb_true_r. rewrite forallb_forall in *. intros c Hc. specialize (Hw c Hc). lia.
 Qed.
 
 (* the attributes the library reports for a line (meaningful where it answers Ok) *)
@@ -238,8 +278,7 @@ Section SshLayout.
       { destruct le; cbn [cr]; [rewrite app_nil_r|]; auto. }
       unfold ssh_child, lib_attrs. rewrite L1. reflexivity.
     - assert (ssh_skip (w ++ cr le) = true) as ->.
-      { destruct le; cbn [cr]; [rewrite app_nil_r; now apply skip_blank|].
-        apply skip_blank. now apply blank_ok_app_cr. }
+      { destruct le; cbn [cr]; [rewrite app_nil_r; now apply skip_blank|now apply skip_blank_cr]. }
       destruct (ssh_lines ssh_skip lib rest); reflexivity.
     - apply andb_prop in Hok as [Hw Ht].
       assert (ssh_skip ((w ++ 35 :: t) ++ cr le) = true) as ->.
@@ -1066,7 +1105,8 @@ Qed.
 
 (* non-vacuity: a realistic layout meets the hypotheses *)
 Definition example_layout : list item :=
-  [IComment [] (bs " my keys"); IEntry toy_k1; IBlank [32; 9]; IComment [32] (bs "ssh-rsa AAAA disabled"); IEntry toy_k2; IBlank []].
+  [IComment [] (bs " my keys"); IEntry toy_k1; IBlank [32; 9]; IBlank [194; 160; 227; 128; 128]; IComment [32] (bs "ssh-rsa AAAA disabled");
+   IComment [226; 128; 131; 9] (0 :: bs " NUL, CR " ++ [13] ++ bs " inside"); IEntry toy_k2; IBlank [32; 13; 120]; IBlank []].
 
 Lemma example_layout_ok : layout_ok example_layout = true /\
   (forall e, In e (entries_of example_layout) -> lib_accepts toy_lib e) /\
